@@ -258,6 +258,28 @@ LEXDEAD_MSG = 'Compiler bug: Lexical declaration for an unbound name'
 BADKINDS = ('PANIC', 'SYNTAXERROR', 'ERROR', 'CRASH')
 
 
+def _known_sigs():
+    """Signatures that are currently `known` (only those can suppress anything, so only their neutralisations
+    are worth trying when a failure is attributed)."""
+    out = set()
+    paths = [os.path.join(ROOT, 'known_findings.json')]
+    d = os.path.join(ROOT, 'known_findings.d')
+    if os.path.isdir(d):
+        paths += [os.path.join(d, fn) for fn in sorted(os.listdir(d)) if fn.endswith('.json')]
+    for pth in paths:
+        try:
+            with open(pth) as f:
+                for e in json.load(f).get('findings', []):
+                    if e.get('property') == 'C02' and e.get('status') == 'known':
+                        out.add(e.get('signature'))
+        except Exception:
+            pass
+    return out
+
+
+KNOWN_SIGS = _known_sigs()
+
+
 def pair_ok(harness, model, orig, var, strict, pl):
     """Does the single case (variant `var` of `orig`, placement pl) pass all its comparisons?"""
     reqs = [json.dumps({'id': 'v', 'src': placement_src(var, pl), 'strict': strict, 'timeout_ms': 3000}),
@@ -338,17 +360,21 @@ def classify_failure(harness, model, seed, i, f):
     try:
         if pair_ok(harness, model, prog, var, strict, pl):
             return None                      # does not reproduce in isolation: leave it unclassified
-        if G.lexical_decl_in_dead_code(var) or G.lexical_decl_in_dead_code(prog):
+        if SIG_LEXDEAD in KNOWN_SIGS and (G.lexical_decl_in_dead_code(var) or G.lexical_decl_in_dead_code(prog)):
             g = run_harness(harness, [json.dumps({'id': 'v', 'src': placement_src(var, pl), 'strict': strict, 'timeout_ms': 3000}),
                                       json.dumps({'id': 'o', 'src': placement_src(prog, pl), 'strict': strict, 'timeout_ms': 3000})])
             if any(LEXDEAD_MSG in g.get(k, {}).get('full', '') for k in ('v', 'o')):
                 return SIG_LEXDEAD           # goja rejects the (valid) program with exactly this internal error
-        if pl == 'eval' and not strict and (G.toplevel_fdecl_and_lexical(var) or G.toplevel_fdecl_and_lexical(prog)) \
+        if SIG_EVALFN in KNOWN_SIGS and pl == 'eval' and not strict and (G.toplevel_fdecl_and_lexical(var) or G.toplevel_fdecl_and_lexical(prog)) \
                 and pair_ok(harness, model, prog, var, strict, 'global') and pair_ok(harness, model, prog, var, True, 'eval'):
             return SIG_EVALFN                # only the sloppy direct-eval placement fails, and the pattern is present
         letters = 'VPDCBJRT'
-        changed = {k: (apply(prog, k) != prog or apply(var, k) != var) for k in letters}
+        changed = {k: (apply(prog, k) != prog or apply(var, k) != var) for k in letters} if KNOWN_SIGS - {SIG_EVALFN} else \
+            {k: False for k in letters}
         fwdpat = G.fwd_param_pattern(var) or G.fwd_param_pattern(prog)
+        sig_of = {'V': SIG_JUMPVALUE, 'P': SIG_FWDPARAM, 'D': SIG_DOWHILE, 'C': SIG_CONSTTDZ, 'B': SIG_BLOCKJUMP, 'T': SIG_FINALLY,
+                  'J': SIG_JUMP, 'R': raw_sig()}
+        letters = ''.join(k for k in letters if sig_of[k] in KNOWN_SIGS)      # repaired defects cannot suppress anything
         usable = [k for k in letters if changed[k] and not (k == 'R' and raw_sig() is None)
                   and not (k == 'P' and not (fwdpat and not model_raises_first()))]
         import itertools
@@ -359,8 +385,8 @@ def classify_failure(harness, model, seed, i, f):
                     return {'V': SIG_JUMPVALUE, 'P': SIG_FWDPARAM, 'D': SIG_DOWHILE, 'C': SIG_CONSTTDZ, 'B': SIG_BLOCKJUMP, 'T': SIG_FINALLY, 'J': SIG_JUMP, 'R': raw_sig()}[sub[0]]
         # sloppy direct-eval defect combined with others: with every other trigger neutralised the sloppy eval
         # placement still fails, while global placement and strict eval pass
-        if pl == 'eval' and not strict and (G.toplevel_fdecl_and_lexical(var) or G.toplevel_fdecl_and_lexical(prog)):
-            np_, nv_ = apply(prog, 'TJRPDCBV'), apply(var, 'TJRPDCBV')
+        if SIG_EVALFN in KNOWN_SIGS and pl == 'eval' and not strict and (G.toplevel_fdecl_and_lexical(var) or G.toplevel_fdecl_and_lexical(prog)):
+            np_, nv_ = apply(prog, letters), apply(var, letters)
             if pair_ok(harness, model, np_, nv_, False, 'global') and pair_ok(harness, model, np_, nv_, True, 'eval'):
                 return SIG_EVALFN
     except Exception:
